@@ -104,7 +104,7 @@ def plan_C03(tier, seed):
         assumptions=["TLC", "net/url parsing of the generated URI texts", "harness Loader logs every call"])
 
 
-REP_C = {"DEV_EqualKindStrict": "FALSE", "DEV_NumberEqualsString": "FALSE", "DEV_JsonNumberIsString": "FALSE"}
+REP_C = {"DEV_EqualKindStrict": "FALSE", "DEV_NumberEqualsString": "FALSE", "DEV_JsonNumberIsString": "FALSE", "MUT_ScanLastOnly": "FALSE"}
 
 
 def rep_job(prefix, fam, k, inv, workers=6):
